@@ -101,10 +101,16 @@ func runCase(t *testing.T, run *core.Run, name string, idx int, rng *rand.Rand) 
 	rounds := core.Pick(3, 8)
 	for r := 0; r < rounds; r++ {
 		for _, s := range senders {
-			for _, memo := range []string{"", "note"} {
+			// "RLP": the memo that marks an ethereum-wrapped transaction, here on a natively signed one (handled as native)
+			for _, memo := range []string{"", "note", "RLP"} {
 				if memo != "" && r%2 == 0 {
 					continue
 				}
+				// legal only below protocol version 2 and for keys that are not ethereum keys (those take the wrapper path)
+				if memo == "RLP" && (idx%2 != 0 || s.kind == "eth-secp256k1") {
+					continue
+				}
+				run.Count("payments_with_memo_"+memo, 1)
 				// (a) original in block k, then each variant in a later block of its own
 				p := mk(s, memo)
 				vars := append([]txvar.Variant{{Family: "identical-bytes", Name: "same", Bytes: p.tx}}, txvar.Variants(p.tx)...)
